@@ -887,6 +887,10 @@ def setitem(I, st, obj, idx, v):
             for st1, r in I.call(m, [obj, idx, v], {}, st):
                 yield st1, (r if isinstance(r, Exc) else None)
             return
+    if obj is None or isinstance(obj, (bool, int, Fraction)) or (is_z3(obj) and (z3.is_int(obj) or z3.is_real(obj) or z3.is_bool(obj))):
+        # None / a number: TypeError, as in Python
+        yield st, exc("TypeError", "'%s' object does not support item assignment" % ("NoneType" if obj is None else "number"))
+        return
     raise Unsupported("item assignment on %r" % (obj,))
 
 
